@@ -539,3 +539,73 @@ def layout_sensitive_types(pkg="com.verif.lab"):
         td("union", "PinNew", [("right", prim("SAFELONG")), ("mod", r_("PinWide")), ("info", set_(S))]),
         td("union", "PinNewer", [("num", prim("INTEGER")), ("wide", r_("PinWide")), ("names", lst(S)), ("ratio", D)]),
     ]
+
+
+def regression_wire_types(pkg="com.verif.lab"):
+    """Shapes that seeded changes of C02 / C10 needed in order to show (seeded/*/meta.json `needs_to_manifest`): appended to
+    the first labs of every C02 / C10 run so that their detection does not depend on the random draw."""
+    D, S, I = prim("DOUBLE"), prim("STRING"), prim("INTEGER")
+    def td(kind, name, fields):
+        d = TDef(kind, name, pkg)
+        d.fields = [(n, t, None) for n, t in fields]
+        return d
+    def al(name, t):
+        d = TDef("alias", name, pkg)
+        d.alias = t
+        return d
+    def en(name, values, deprecated=()):
+        d = TDef("enum", name, pkg)
+        d.values = list(values)
+        d.deprecated = set(deprecated)
+        return d
+    r_ = lambda n: ref(n, pkg)
+    return [
+        # alias chains onto optionals / collections, as object fields (C02-r3m2) and as union payloads
+        al("RwMaybeText", opt(S)), al("RwMaybeText2", r_("RwMaybeText")), al("RwNums", lst(I)), al("RwNums2", r_("RwNums")), al("RwNums3", r_("RwNums2")),
+        al("RwNames", set_(S)), al("RwNames2", r_("RwNames")), al("RwCounts", map_(S, I)), al("RwCounts2", r_("RwCounts")),
+        td("object", "RwAliasChains", [("name", S), ("maybe", r_("RwMaybeText2")), ("nums", r_("RwNums3")), ("names", r_("RwNames2")), ("counts", r_("RwCounts2"))]),
+        td("union", "RwChainUnion", [("maybe", r_("RwMaybeText2")), ("nums", r_("RwNums2")), ("plain", S)]),
+        # keyword and oddly cased member names (C02-r5m2 and friends)
+        td("object", "RwKeywords", [("type", S), ("ref", opt(S)), ("match", lst(I)), ("self", opt(I)), ("fooBar2D", S), ("x-y", opt(S)), ("a_b", opt(I))]),
+        td("union", "RwKeywordUnion", [("match", S), ("fooBar", I), ("xRay", opt(S))]),
+        # enum values whose case conversion is not the identity (C02-r3m1, C10-m1, C10-r2m1), deprecated ones (C10-r4m1), letters up to Z (C10-r4m2)
+        en("RwProtocol", ["HTTP_2", "TLS_1_2", "V2_API", "SELF", "X9", "ZERO_Z", "A"], deprecated=["TLS_1_2", "A"]),
+        td("object", "RwEnumHolder", [("proto", r_("RwProtocol")), ("protos", set_(r_("RwProtocol"))), ("byProto", map_(r_("RwProtocol"), S))]),
+        # externals with container fallbacks (C02-m2), empty binary / any holding null (C01-r7m1 family)
+        td("object", "RwExternals", [("ext", external("RwExt", "java.ext", lst(S))), ("extOpt", external("RwExtOpt", "java.ext", opt(I))), ("blob", prim("BINARY")), ("anything", prim("ANY")), ("maybeBlob", opt(prim("BINARY")))]),
+        # a wide object (> 12 fields)
+        td("object", "RwWide", [("f%02d" % k, opt(I) if k % 3 else S) for k in range(15)]),
+    ]
+
+
+def regression_compile_definition(pkg="com.verif.pin"):
+    """Shapes that seeded changes of C03 needed in order to show; compiled as one pinned C03 case in every run."""
+    D, S, I = prim("DOUBLE"), prim("STRING"), prim("INTEGER")
+    L, R = pkg + ".left.api", pkg + ".right.api"
+    types = [
+        # packages that diverge and re-converge, same simple names on both sides (C03-m2, C02-r7m2)
+        obj("Customer", L, [field("name", S)]), obj("Customer", R, [field("accountNumber", I)]),
+        obj("Invoice", L, [field("own", ref("Customer", L)), field("theirs", ref("Customer", R)), field("many", lst(ref("Customer", R)))]),
+        union("Party", R, [field("left", ref("Customer", L)), field("right", ref("Customer", R))]),
+        # recursion through an optional behind an alias (C03-r2m2)
+        alias("NextNode", pkg, opt(ref("Node", pkg))), obj("Node", pkg, [field("value", S), field("next", ref("NextNode", pkg))]),
+        # types whose names snake-case to keywords (C03-r3m1)
+        enum("Type", pkg, ["A", "B"]), union("Match", pkg, [field("one", S)]), obj("Static", pkg, [field("type", ref("Type", pkg)), field("match", opt(ref("Match", pkg)))]),
+        # an optional / collection field called `new` (C03-r5m1), and a required one
+        obj("Revision", pkg, [field("old", I), field("new", opt(I))]), obj("Additions", pkg, [field("new", lst(S))]), obj("Fresh", pkg, [field("new", S)]),
+        # an external type with a double fallback as set item and map key (C03-r7m2)
+        obj("Thresholds", pkg, [field("levels", set_(external("Score", "java.ext", D))), field("byScore", map_(external("Score", "java.ext", D), S))]),
+        alias("LevelSet", pkg, set_(external("Score", "java.ext", D))),
+    ]
+    errors = [error("RevisionConflict", pkg, "Pin", "CONFLICT", [field("old", S)], [field("new", opt(S))])]
+    services = [
+        # only optional<binary> responses in one service (C03-m1, C03-r2m1), alias of optional<binary> (C04-r7m2)
+        service("BlobOnlyService", pkg, [endpoint("maybe", "GET", "/blob/maybe", [], returns=opt(prim("BINARY"))),
+                                        endpoint("maybeAgain", "GET", "/blob/again/{id}", [arg("id", S, "path")], returns=opt(prim("BINARY")))]),
+        # arguments named like the locals of the generated client / server code (C03-r7m1)
+        service("TraceService", pkg, [
+            endpoint("trace", "POST", "/trace/{request}", [arg("request", S, "path"), arg("response", opt(S), "query", "response"), arg("path", opt(I), "header", "Path-Id"), arg("body", S, "body")], returns=S),
+            endpoint("parts", "GET", "/parts/{runtime}", [arg("runtime", I, "path"), arg("parts", lst(S), "query", "parts"), arg("headers", opt(S), "header", "Headers-Id"), arg("auth", opt(S), "query", "auth")], auth="header"),
+        ]),
+    ]
+    return definition(types, services, errors)
